@@ -6,6 +6,8 @@ From V.c19 Require Import C19Model C19Spec C19InvProofs C19TrackProofs C19DescPr
 From V.c19 Require Import C19RecModel C19RecProofs C19RecLinkProofs.
 From V.c19 Require Import C19BoxCodec C19BoxModel.
 From V.c19 Require Import C19TreeModel C19TreeProofs C19TreeScopeProofs C19LeafProofs C19PrintParseProofs C19RoundtripProofs C19ArgsProofs.
+From V.c19 Require Import C19FragModel C19FragProofs.
+From V.c05 Require C05Model C05FragModel C05HistProofs C05GhostProofs C05ReadProofs C05RoundProofs C05SingleProofs.
 
 
 (* For EVERY op sequence (any arguments, including calls that return an error or panic; the history stops
@@ -466,6 +468,107 @@ Theorem C19_box_roundtrip_audio :
 Proof. exact pp_audio. Qed.
 Print Assumptions C19_box_roundtrip_audio.
 
+(* ------------------------------------------------------------------ "fragments created for its track ids decode against it"
+   Composition with C05's fragment model (coq/c05, imported read-only; C05_roundtrip_single / _single_modes / C05_roundtrip
+   hold for ANY trex).  get_trex (C19FragModel.v) is MvexBox.GetTrex on a tree of the box model. *)
+
+(* for EVERY history in the scope of C19_roundtrip: the DECODED init holds, for every track id, the trex that CreateTrex
+   built: that track id, default sample duration / size / flags 0, default sample description index 1 (the first entry
+   of stsd); and the track ids are pairwise different (so CreateMultiTrackFragment over them is well formed) *)
+Theorem C19_init_trex :
+  forall (avc_parse : avc_parser) (hevc_parse : hevc_parser) (ops : list op),
+    N.of_nat (length ops) < 4294967295 ->
+    let s := snd (run avc_parse hevc_parse ops) in
+    args_okb s = true -> forall ts, tree_of s = Some ts -> forallb enc_fits ts = true ->
+    exists bs, encode_seq false ts = Ok bs /\ decode_file bs = Ok ts
+      /\ NoDup (map tk_id (traks s))
+      /\ forall t, In t (traks s) ->
+           get_trex ts (tk_id t) = Some (C05Model.mkTrex (tk_id t) 0 0 0) /\ get_trex_dsdi ts (tk_id t) = Some 1.
+Proof. exact init_trex. Qed.
+Print Assumptions C19_init_trex.
+
+(* C19_fragments_decode: every history, every track id T of the built init: a fragment made by CreateFragment(seq, T),
+   ANY history of AddFullSample / AddFullSampleToTrack (other ids are refused) adding at least one sample, Sample.Size =
+   len(Data), decode times consistent with the durations, optimisation on or off, any extra boxes, below 2 GiB: if
+   Fragment.Encode succeeds, then the decoded fragment read through the trex that GetTrex(T) finds in the DECODED init
+   (decode_file (encode ts) = ts) returns exactly the samples added, in order, with bytes, sizes, durations, flags,
+   composition offsets and decode times -- and nothing through the trex of any other track of the init. *)
+Theorem C19_fragments_decode :
+  forall (avc_parse : avc_parser) (hevc_parse : hevc_parser) (ops : list op),
+    N.of_nat (length ops) < 4294967295 ->
+    let s := snd (run avc_parse hevc_parse ops) in
+    args_okb s = true -> forall ts, tree_of s = Some ts -> forallb enc_fits ts = true ->
+    exists bs, encode_seq false ts = Ok bs /\ decode_file bs = Ok ts
+      /\ forall t, In t (traks s) ->
+         let T := tk_id t in
+         forall fops cs fr opt fe pos0 pre mx post exs,
+           N.of_nat (length fops) < 4294967296 -> forallb C05HistProofs.is_full fops = true ->
+           Forall (fun o => C05ReadProofs.sized_f (C05GhostProofs.op_full o)) fops ->
+           C05FragModel.run_ops (C05FragModel.with_extras (C05FragModel.create_fragment T) pre mx post exs) fops = (cs, Some fr) ->
+           C05FragModel.encode_frag opt fr = Ok fe ->
+           C05RoundProofs.added1_fulls T fops <> [] ->
+           C05FragModel.moof_size fe + C05FragModel.md_header_size (C05FragModel.fr_mdat fe)
+             + lenN (C05FragModel.md_data (C05FragModel.fr_mdat fr)) < 2147483648 ->
+           pos0 + C05FragModel.fr_pre fe < 4611686018427387904 ->
+           C05RoundProofs.consistent (C05RoundProofs.added1_fulls T fops) ->
+           C05FragModel.get_full_samples (C05FragModel.decoded_view fe pos0 []) (get_trex ts T)
+           = Ok (C05RoundProofs.added1_fulls T fops)
+           /\ forall t2, In t2 (traks s) -> tk_id t2 <> T ->
+                C05FragModel.get_full_samples (C05FragModel.decoded_view fe pos0 []) (get_trex ts (tk_id t2)) = Ok [].
+Proof. exact fragments_decode. Qed.
+Print Assumptions C19_fragments_decode.
+
+(* the same under ALL six add operations (AddFullSample, AddFullSampleToTrack, AddSampleToTrack, AddSample, AddSamples,
+   AddSampleInterval; one data mode per fragment, C05's mode_ok; lz = the data the caller writes after a metadata-only
+   fragment): the samples come back with their data pieces and decode times tb + accumulated durations *)
+Theorem C19_fragments_decode_modes :
+  forall (avc_parse : avc_parser) (hevc_parse : hevc_parser) (ops : list op),
+    N.of_nat (length ops) < 4294967295 ->
+    let s := snd (run avc_parse hevc_parse ops) in
+    args_okb s = true -> forall ts, tree_of s = Some ts -> forallb enc_fits ts = true ->
+    exists bs, encode_seq false ts = Ok bs /\ decode_file bs = Ok ts
+      /\ forall t, In t (traks s) ->
+         let T := tk_id t in
+         forall fops cs fr opt fe pos0 pre mx post exs FL lz,
+           Forall (fun o => C05HistProofs.op_dts o < 18446744073709551616) fops ->
+           C05FragModel.run_ops (C05FragModel.with_extras (C05FragModel.create_fragment T) pre mx post exs) fops = (cs, Some fr) ->
+           C05SingleProofs.mode_ok fops cs FL lz ->
+           map C05Model.fs_s FL = C05HistProofs.added1 T fops -> Forall C05ReadProofs.sized_f FL -> FL <> [] ->
+           C05FragModel.encode_frag opt fr = Ok fe ->
+           C05FragModel.moof_size fe + C05FragModel.md_header_size (C05FragModel.fr_mdat fe)
+             + lenN (flat_map C05Model.fs_data FL) < 2147483648 ->
+           pos0 + C05FragModel.fr_pre fe < 4611686018427387904 ->
+           exists tb,
+             C05FragModel.get_full_samples (C05FragModel.decoded_view fe pos0 lz) (get_trex ts T)
+             = Ok (C05ReadProofs.retime tb FL).
+Proof. exact fragments_decode_modes. Qed.
+Print Assumptions C19_fragments_decode_modes.
+
+(* multi-track fragments: CreateMultiTrackFragment(seq, tracks) for ANY duplicate-free id list (e.g. all the ids of the
+   init: they are pairwise different), any history of AddFullSampleToTrack: every track of the init reads back, through ITS
+   trex of the decoded init, exactly the samples added to it (nothing if it is not part of the fragment) *)
+Theorem C19_fragments_decode_multi :
+  forall (avc_parse : avc_parser) (hevc_parse : hevc_parser) (ops : list op),
+    N.of_nat (length ops) < 4294967295 ->
+    let s := snd (run avc_parse hevc_parse ops) in
+    args_okb s = true -> forall ts, tree_of s = Some ts -> forallb enc_fits ts = true ->
+    exists bs, encode_seq false ts = Ok bs /\ decode_file bs = Ok ts
+      /\ NoDup (map tk_id (traks s))
+      /\ forall tracks fops cs fr opt fe pos0 pre mx post exs,
+           NoDup tracks -> N.of_nat (length fops) < 4294967296 -> forallb C05GhostProofs.is_full_to fops = true ->
+           Forall (fun o => C05ReadProofs.sized_f (C05GhostProofs.op_full o)) fops ->
+           C05FragModel.run_ops (C05FragModel.with_extras (C05FragModel.create_multi tracks) pre mx post exs) fops = (cs, Some fr) ->
+           C05FragModel.encode_frag opt fr = Ok fe ->
+           C05FragModel.moof_size fe + C05FragModel.md_header_size (C05FragModel.fr_mdat fe)
+             + lenN (C05FragModel.md_data (C05FragModel.fr_mdat fr)) < 2147483648 ->
+           pos0 + C05FragModel.fr_pre fe < 4611686018427387904 ->
+           forall t, In t (traks s) ->
+             C05RoundProofs.consistent (C05RoundProofs.added_fulls tracks (tk_id t) fops) ->
+             C05FragModel.get_full_samples (C05FragModel.decoded_view fe pos0 []) (get_trex ts (tk_id t))
+             = Ok (C05RoundProofs.added_fulls tracks (tk_id t) fops).
+Proof. exact fragments_decode_multi. Qed.
+Print Assumptions C19_fragments_decode_multi.
+
 (* Outside the quantifier (history starting from a DECODED init), reproduced on the real code by the harness:
    AddEmptyTrack repeats an id when the decoded ids are not 1..n, and does not keep the traks together when the
    first moov child is a trak (lastTrakIdx = 0 is read as "no trak"). *)
@@ -569,4 +672,31 @@ Proof.
   - intros sps w h pr c l x E. unfold ex_avc_const in E. inversion E. repeat split; reflexivity.
   - intros sps w h cfg E. unfold ex_hevc_const in E. inversion E. split; vm_compute; reflexivity.
   - vm_compute. reflexivity.
+Qed.
+
+(* the hypotheses of C19_fragments_decode are satisfiable and its conclusion computes: the two-track init of
+   C19_roundtrip_hyp (video + audio), a fragment for track 2 with three full samples (one addressed to an unknown id is
+   refused), optimisation on, read through the trex found in the decoded init *)
+Example C19_fragments_decode_hyp :
+  let s := snd (run ex_avc_parse ex_hevc_parse (nth 92 small_scope [])) in
+  let sm k := C05Model.mkSample 16842752 10 k 0 in
+  let fops := [C05FragModel.OFull (sm 2) 500 [1; 2]; C05FragModel.OFullTo 9 (sm 1) 0 [9]; C05FragModel.OFull (sm 1) 510 [3];
+               C05FragModel.OFullTo 2 (sm 3) 520 [4; 5; 6]] in
+  map tk_id (traks s) = [1; 2]
+  /\ forallb C05HistProofs.is_full fops = true
+  /\ Forall (fun o => C05ReadProofs.sized_f (C05GhostProofs.op_full o)) fops
+  /\ C05RoundProofs.consistent (C05RoundProofs.added1_fulls 2 fops)
+  /\ exists ts fr fe,
+       tree_of s = Some ts
+       /\ get_trex ts 2 = Some (C05Model.mkTrex 2 0 0 0)
+       /\ C05FragModel.run_ops (C05FragModel.with_extras (C05FragModel.create_fragment 2) 20 0 8 [5]) fops
+          = ([C05FragModel.COk; C05FragModel.CErr; C05FragModel.COk; C05FragModel.COk], Some fr)
+       /\ C05FragModel.encode_frag true fr = Ok fe
+       /\ C05FragModel.get_full_samples (C05FragModel.decoded_view fe 300 []) (get_trex ts 2)
+          = Ok [C05Model.mkFull (sm 2) 500 [1; 2]; C05Model.mkFull (sm 1) 510 [3]; C05Model.mkFull (sm 3) 520 [4; 5; 6]].
+Proof.
+  split; [vm_compute; reflexivity|]. split; [reflexivity|]. split; [repeat constructor|].
+  split; [split; [cbn; lia|reflexivity]|].
+  eexists; eexists; eexists. split; [vm_compute; reflexivity|]. split; [vm_compute; reflexivity|].
+  split; [vm_compute; reflexivity|]. split; [vm_compute; reflexivity|]. vm_compute. reflexivity.
 Qed.
